@@ -54,6 +54,18 @@ func plan(tier string, seed int64) []driver.Case {
 					cases = append(cases, driver.Case{ID: fmt.Sprintf("op/%s/h%d/%s/%s", e.Name, h, sc.String(), m),
 						P: map[string]string{"kind": "op", "entry": e.Name, "hostile": fmt.Sprint(h), "script": sc.String(), "mode": m}})
 				}
+				// an observer built by ro.NewObserver whose TERMINAL callback panics: whatever the library does with
+				// that panic, the callbacks of this observer have seen values, one terminal, and see nothing more.
+				// (A panicking Next callback is C07's business: the observer then gets the Error reporting its own
+				// panic and stays open - recorded there as a known finding, pinned by the repository's own test.)
+				if e.Name == "Bare" {
+					for _, m := range modes {
+						for _, f := range []string{"complete", "error"} {
+							cases = append(cases, driver.Case{ID: fmt.Sprintf("op/%s/h%d/%s/%s/observer-%s-panics", e.Name, h, sc.String(), m, f),
+								P: map[string]string{"kind": "op", "entry": e.Name, "hostile": fmt.Sprint(h), "script": sc.String(), "mode": m, "obspanic": f}})
+						}
+					}
+				}
 				// a producer that, on top of its script, panics: in its subscribe function after playing, or in the
 				// teardown it returned (which runs inside Subscribe when the script ended the subscription) - one more
 				// notification after the terminal, to be discarded like the others
@@ -170,6 +182,17 @@ func runOp(c driver.Case) driver.Result {
 			}
 		}
 		o = run.Opts{Entry: e0, Scripts: scripts, Mode: c.Get("mode")}
+		if f := c.Get("obspanic"); f != "" {
+			r := rec.New(e0.Name)
+			fired := false
+			r.OnEvent = func(ev *rec.Event) {
+				if !fired && ((f == "next" && ev.Kind == rec.Next) || (f == "complete" && ev.Kind == rec.Complete) || (f == "error" && ev.Kind == rec.Error)) {
+					fired = true
+					panic("the observer's " + f + " callback panics")
+				}
+			}
+			o.Rec, o.Wrapped = r, true
+		}
 		switch c.Get("fault") {
 		case "subscribe-panics":
 			o.Tweak = func(_ int, s *src.Source) { s.PanicInSubscribe = "the subscribe function panics after playing its script" }
@@ -193,7 +216,7 @@ func runOp(c driver.Case) driver.Result {
 		r.Msg = fmt.Sprintf("%s: Subscribe panicked: %v", name, res.Panic)
 		return r
 	}
-	if !grammar(res.Rec, "C01/"+fam+"/delivery-after-terminal", fmt.Sprintf("%s over hostile script [%s] (%s%s)", name, c.Get("script"), c.Get("mode"), c.Get("fault")), &r) {
+	if !grammar(res.Rec, "C01/"+fam+"/delivery-after-terminal", fmt.Sprintf("%s over hostile script [%s] (%s%s)", name, c.Get("script"), c.Get("mode"), c.Get("fault")+c.Get("obspanic")), &r) {
 		return r
 	}
 	// conservation on the bare observable: issued = delivered + dropped (by emission tag)
